@@ -1,5 +1,6 @@
-(** First-order core extended with fn* (single arity, closures over their lexical
-    environment) and invocation of function values.  Evaluation rules on explicit fuel
+(** First-order core extended with fn* (single arity, optionally named so that the body can
+    call the function itself, closures over their lexical environment) and invocation of
+    function values.  Evaluation rules on explicit fuel
     (self-application can diverge).  Effects are recorded as observations (closures show
     as [OFn]). *)
 From Coq Require Import List ZArith NArith Bool.
@@ -33,12 +34,12 @@ Inductive cexpr :=
 | CDo (s r : cexpr)
 | CLet (x : N) (i b : cexpr)
 | CCall (f : prim) (args : list cexpr)
-| CFn (params : list N) (body : cexpr)
+| CFn (self : option N) (params : list N) (body : cexpr)
 | CInvoke (f : cexpr) (args : list cexpr).
 
 Inductive cval :=
 | CVNil | CVBool (b : bool) | CVInt (z : Z) | CVVec (l : list cval)
-| CVClo (params : list N) (body : cexpr) (env : list (N * cval)).
+| CVClo (self : option N) (params : list N) (body : cexpr) (env : list (N * cval)).
 
 Definition env := list (N * cval).
 
@@ -52,7 +53,7 @@ Fixpoint obs_of (v : cval) : obs :=
   match v with
   | CVNil => ONil | CVBool b => OBool b | CVInt z => OInt z
   | CVVec l => OVec (map obs_of l)
-  | CVClo _ _ _ => OFn
+  | CVClo _ _ _ _ => OFn
   end.
 
 Fixpoint of_const (k : const) : cval :=
@@ -82,6 +83,10 @@ Fixpoint bind_params (ps : list N) (vs : list cval) (rho : env) : option env :=
   | p :: ps', v :: vs' => bind_params ps' vs' ((p, v) :: rho)
   | _, _ => None
   end.
+
+(** the environment of a call: the closure's, plus the function itself under its own name *)
+Definition self_env (self : option N) (ps : list N) (body : cexpr) (rc : env) : env :=
+  match self with Some f => (f, CVClo self ps body rc) :: rc | None => rc end.
 
 Section Lists.
   Variable ev : cexpr -> option (cval * trace).
@@ -130,11 +135,11 @@ Fixpoint ceval (fuel : nat) (rho : env) (e : cexpr) : option (cval * trace) :=
               match apply_prim f vs with Some (v, t2) => Some (v, t1 ++ t2) | None => None end
           | None => None
           end
-      | CFn ps body => Some (CVClo ps body rho, [])
+      | CFn self ps body => Some (CVClo self ps body rho, [])
       | CInvoke f args =>
           match evals (ceval n rho) (f :: args) with
-          | Some (CVClo ps body rc :: vs, t1) =>
-              match bind_params ps vs rc with
+          | Some (CVClo self ps body rc :: vs, t1) =>
+              match bind_params ps vs (self_env self ps body rc) with
               | Some rho' =>
                   match ceval n rho' body with Some (v, t2) => Some (v, t1 ++ t2) | None => None end
               | None => None
